@@ -1,5 +1,10 @@
 """Texts of MANIFEST.json per claimed property (kept next to the rules so they stay in step)."""
 CLAIMS = {
+ "C04": {
+  "technique": "static analysis: effect summaries (who-may-write) + must-pass-through path rule over feasible CFGs + def-use origin of epoch values",
+  "text": "For every broker mutator (found by its effect summary, floor 13) and every CFG path (infeasible paths pruned by correlated-flag valuations), a write to served content is versioned: a global-epoch increase lies on every Ok path through the write, a cluster-content write also has a cluster-epoch write whose value derives from the increased global epoch, and no definite content write is followed by an Err exit without versioning. All writers of the global and cluster epochs are enumerated over lib+bins and shown monotone (+1, >-guarded assignment, max(..,g+1)); the epoch served per proxy is traced to cluster/global epoch. This decides the property for all operation sequences because it holds on all paths of every operation; restore of external snapshots is out of scope.",
+  "note": "Trusts MIR, the extractor, the effect classification table (which fields are served content) and that std collection methods mutate only their receiver; conditional mutators (retain/remove/or_insert) are treated as possible no-ops for the Err-exit rule.",
+ },
  "C05": {
   "technique": "static analysis: conditional constant propagation over MIR (decision table), dominator/path rules, who-may-write scan",
   "text": "Decides, on all paths of the two installing functions (located by the field they write), the install decision table over {msg<,=,> installed} x force x host-match for SETCLUSTER and SETREPL (exhaustive finite domain), lock dominance and guard liveness, snapshot-before-epoch store order, origin of the stored values, the gate/installed epoch bookkeeping of SETREPL, the single-writer rule over lib+bins and the error-reply mapping. These are necessary structural conditions of the sequential clauses of the property; linearizability under concurrent deliveries is not decided.",
